@@ -38,6 +38,7 @@ PROPERTY = "C17"
 ENGINE = "c17"
 REQUIRED_THEOREMS = [
     "resolution_order",
+    "context_source",
     "reported_source_is_first_layer",
     "ast_variables_fuel_sufficient",
     "ast_variables_cover_names",
@@ -168,6 +169,67 @@ def ctx_value(spec):
     if k == "ns":
         return types.SimpleNamespace(**{a: ctx_value(s) for a, s in spec["attrs"].items()})
     raise ValueError(k)
+
+
+CTX_FORMS = ["dict", "lm", "nested", "named", "captured"]
+NAMED_SUBLAYER = "glob"
+
+
+def _ctx_parts(c):
+    """the caller's context values split into an upper ("locals") and a lower ("globals") part"""
+    items = [(k, ctx_value(s)) for k, s in c["ctx"].items()]
+    n = min(c.get("ctx_split", len(items)), len(items))
+    return dict(items[:n]), dict(items[n:])
+
+
+def build_context(c):
+    """the caller's context in the form the case asks for:
+    dict      a plain dict
+    lm        LayeredMapping(upper, lower)                      (unnamed; the shape of capture_context())
+    nested    LayeredMapping(LayeredMapping(upper), lower)      (unnamed inside unnamed)
+    named     LayeredMapping(upper, LayeredMapping(lower, name="glob"))
+    captured  capture_context(0) inside a function whose locals are the identifier keys of `upper` and whose
+              globals hold everything else (the frame capture `model_matrix(..., context=<int>)` performs)"""
+    from formulaic.utils.context import capture_context
+    from formulaic.utils.layered_mapping import LayeredMapping
+
+    form = c.get("ctx_form", "dict")
+    upper, lower = _ctx_parts(c)
+    if form == "dict":
+        return {**upper, **lower}
+    if form == "lm":
+        return LayeredMapping(upper, lower)
+    if form == "nested":
+        return LayeredMapping(LayeredMapping(upper), lower)
+    if form == "named":
+        return LayeredMapping(upper, LayeredMapping(lower, name=NAMED_SUBLAYER))
+    if form == "captured":
+        loc = {k: v for k, v in upper.items() if k.isidentifier()}
+        glob = {"capture_context": capture_context, **lower, **{k: v for k, v in upper.items() if k not in loc}}
+        src = "def _f(_vals):\n" + "".join(f"    {k} = _vals[{k!r}]\n" for k in loc) + "    return capture_context(0)\n"
+        exec(src, glob)  # noqa: S102
+        return glob["_f"](loc)
+    raise ValueError(form)
+
+
+def describe_context(obj):
+    """the structure of the real context object for the model: keys of plain mappings, name / mutations / layers of
+    LayeredMapping objects (read off the real object)"""
+    from formulaic.utils.layered_mapping import LayeredMapping
+
+    if isinstance(obj, LayeredMapping):
+        return dict(name=obj.name, muts=[str(k) for k in obj._mutations], layers=[describe_context(l) for l in obj._layers])
+    return [str(k) for k in obj]
+
+
+def _ctx_source(key, c):
+    """independent statement of the source a context key must be reported with: `context`, extended by the names of
+    the named sub-layers on the way to the layer holding the key"""
+    if c.get("ctx_form", "dict") == "named":
+        upper, lower = _ctx_parts(c)
+        if key not in upper and key in lower:
+            return "context:" + NAMED_SUBLAYER
+    return "context"
 
 
 def frame(data: dict) -> pandas.DataFrame:
@@ -348,6 +410,16 @@ FIXED = [
     dict(kind="formula", formula="log(C) + {np + 1}", data={"C": [1, 2, 3, 4], "np": [2, 3, 4, 5]}, ctx={}),
     dict(kind="formula", formula="x.clip(0) + {y.T}", data={"x": [1, 2, 3, 4], "y": [2, 3, 4, 5]}, ctx={}),
     dict(kind="formula", formula="log(`x.y`) + w", data={"x.y": [1, 2, 3, 4], "w": [2, 3, 4, 5]}, ctx={}),
+    dict(kind="formula", formula="y ~ x + k + m + center(x) + double(m) + scale(x)",
+         data={"y": [1, 2, 3, 4], "x": [1, 2, 3, 5], "k": [7, 7, 8, 8]},
+         ctx={"k": dict(k="arr", v=[11, 11, 11, 11]), "m": dict(k="arr", v=[10, 20, 30, 40]), "center": dict(k="fn", c=42), "double": dict(k="fn", c=2)},
+         ctx_form="lm", ctx_split=2),
+    dict(kind="formula", formula="log(x) + {y + u}:f(x)", data={"x": [1, 2, 3, 4], "y": [2, 3, 4, 5]},
+         ctx={"u": dict(k="arr", v=[11, 12, 13, 14]), "f": dict(k="fn", c=7)}, ctx_form="captured", ctx_split=1),
+    dict(kind="formula", formula="x + u + f(u)", data={"x": [1, 2, 3, 4]},
+         ctx={"u": dict(k="arr", v=[11, 12, 13, 14]), "f": dict(k="fn", c=7)}, ctx_form="nested", ctx_split=1),
+    dict(kind="formula", formula="x + u + f(u)", data={"x": [1, 2, 3, 4]},
+         ctx={"u": dict(k="arr", v=[11, 12, 13, 14]), "f": dict(k="fn", c=7)}, ctx_form="named", ctx_split=1),
     dict(kind="dot", formula="y ~ .", data={"x": [1, 2, 3, 4], "y": [2, 3, 4, 5], "C": [1, 1, 2, 2], "a b": [1, 2, 2, 1]}, ctx={}),
     dict(kind="dot", formula="log(y) + `a b` ~ .", data={"x": [1, 2, 3, 4], "y": [2, 3, 4, 5], "a b": [1, 2, 2, 1]}, ctx={}),
     dict(kind="dot", formula="log(`a b`) ~ .", data={"x": [1, 2, 3, 4], "a b": [1, 2, 2, 1]}, ctx={}),
@@ -362,9 +434,12 @@ def cases(rng, tier):
     for _ in range(n):
         data, ctx = gen_env(rng)
         g = Gen(rng, data, ctx, wild=rng.random() < 0.3)
+        # how the caller supplies the context: plain dict or (nested / named / captured) LayeredMapping
+        form = rng.choice(["dict", "dict", "lm", "lm", "nested", "named", "captured", "captured"]) if ctx else rng.choice(["dict", "dict", "captured"])
+        shape = dict(ctx_form=form, ctx_split=rng.randint(0, len(ctx)))
         if rng.random() < 0.15:
             lhs = " + ".join(g.factor() for _ in range(rng.choice([1, 1, 2])))
-            yield dict(kind="dot", formula=f"{lhs} ~ {rng.choice(['.', '.', '0 + .'])}", data=data, ctx=ctx)
+            yield dict(kind="dot", formula=f"{lhs} ~ {rng.choice(['.', '.', '0 + .'])}", data=data, ctx=ctx, **shape)
             continue
         terms = [g.term() for _ in range(rng.randint(1, 4))]
         f = " + ".join(terms)
@@ -372,7 +447,7 @@ def cases(rng, tier):
             f = g.factor() + " ~ " + f
         if rng.random() < 0.1:
             f = "0 + " + f if "~" not in f else f.replace("~ ", "~ 0 + ", 1)
-        yield dict(kind="formula", formula=f, data=data, ctx=ctx)
+        yield dict(kind="formula", formula=f, data=data, ctx=ctx, **shape)
 
 
 def describe(c):
@@ -390,6 +465,8 @@ def describe(c):
         tags.append("ctx-shadows-data")
     elif c["ctx"]:
         tags.append("ctx")
+    if c.get("ctx_form", "dict") != "dict":
+        tags.append("ctx=" + c["ctx_form"])
     return ",".join(tags)
 
 
@@ -532,7 +609,7 @@ def impl(c):
     from formulaic.utils.variables import _get_ast_node_variables
 
     df = frame(c["data"])
-    ctx = {k: ctx_value(s) for k, s in c["ctx"].items()}
+    ctx = build_context(c)
     if c["kind"] == "dot":
         return impl_dot(c, df, ctx)
     try:
@@ -558,7 +635,7 @@ def impl(c):
         else:
             bfs.append(None)
         factors.append(d)
-    out = dict(factors=factors, bfs=bfs)
+    out = dict(factors=factors, bfs=bfs, ctx_desc=describe_context(ctx))
     # before materialisation
     try:
         pre = F.required_variables
@@ -619,7 +696,7 @@ def request(c, o):
         return dict(op="none")
     if c["kind"] == "dot":
         return dict(op="dot", lhs=o["lhs"], cols=list(c["data"]))
-    return dict(op="formula", factors=o["factors"], data=list(c["data"]), context=list(c["ctx"]), builtins=BUILTIN_NAMES)
+    return dict(op="formula", factors=o["factors"], data=list(c["data"]), context=o["ctx_desc"], builtins=BUILTIN_NAMES)
 
 
 # ----------------------------------------------------------------------------- model vs implementation
@@ -648,14 +725,17 @@ def _cmp_run(tag, io, mo, compare_vars=True):
     The model's operations never fail, so it predicts `ok` or `FactorEvaluationError <- NameError`.
     * model ok: the implementation must not fail with NameError (it may fail because an operation fails: that is a
       parameter of the model); if it succeeds the reported variables must be equal.
-    * model NameError: the implementation must raise FactorEvaluationError (caused by NameError, or by an operation that
-      fails before the unbound name is reached)."""
+    * model NameError: the implementation must fail as well (FactorEvaluationError caused by NameError, or an operation /
+      the encoding of an earlier factor's value failing before the unbound name is reached)."""
     if io is None or mo is None:
         return None if io is None and mo is None else f"{tag}: one side has no run"
     i_fee = io.get("error") == "FactorEvaluationError"
     if "error" in mo:
-        if not i_fee:
-            return f"{tag}: model fails ({mo.get('cause')}) but the implementation gives {io.get('error', 'success')}"
+        # the implementation must fail too: with FactorEvaluationError, or - when an earlier factor evaluated to
+        # something that cannot be a column (e.g. a builtin function un-shadowed by the removal) - with whatever the
+        # encoding of that value raises before the unbound name is reached (outside the model: counted, accepted)
+        if "error" not in io:
+            return f"{tag}: model fails ({mo.get('cause')}) but the implementation succeeds"
         return None
     if i_fee and io.get("cause") == "NameError":
         return f"{tag}: implementation fails with NameError, the model finds every name bound"
@@ -733,7 +813,7 @@ def _layer_of(key, c, without=None):
     if key in c["data"] and key != without:
         return "data"
     if key in c["ctx"]:
-        return "context"
+        return _ctx_source(key, c)
     if key in TRANSFORMS:
         return "transforms"
     return None
